@@ -671,6 +671,29 @@ def work_tight(shard):
                 got = got[0] if okg and got else got
             if okg and got != value:
                 part.violation(cls + '/value-lost-in-collection', 'after FRE("") %s reads back %r, set %r' % (name, got, value), case)
+        # a refused value has taken nothing: after a collection at least as much memory is free as before, and
+        # small values still make the round trip when they fit
+        okf, f2 = _guard(part, cls, case, s.evaluate, b'FRE("")')
+        exists = False
+        if not ok and kind == 'array':
+            # (the array itself may have been dimensioned 0..10 before its first element was refused: that memory is
+            # accounted for, if the array is there)
+            okx, arr = _guard(part, cls, case, s.get_variable, name)
+            exists = bool(okx and arr is not None and len(arr) == 11)
+        if okf and f2 is None:
+            part.violation(cls + '/free-memory-cannot-be-evaluated', 'after the %s set_variable(%s) with %d bytes free FRE("") cannot be evaluated' % (
+                'stored' if ok else 'refused', name, f1), case)
+        if not ok and okf and f2 is not None and f2 < f1 - (48 if exists else 0):
+            part.violation(cls + '/memory-lost-by-refused-value',
+                           'with %d bytes free set_variable(%s) was refused; afterwards FRE("") is %r' % (f1, name, f2), case)
+        if okf and f2 is not None and f2 >= 16:
+            for nm, val in (('R$', b'ab'), ('I%', 7)):
+                oks, _ = _guard(part, cls, case, s.set_variable, nm, val)
+                okg, got = _guard(part, cls, case, s.get_variable, nm)
+                if not oks or not okg or got != val:
+                    part.violation(cls + '/later-round-trip-fails', 'after the %s set_variable(%s) and with %r bytes free: set_variable(%s, %r) then get_variable gives %r' % (
+                        'stored' if ok else 'refused', name, f2, nm, val, got if okg else 'an error'), case)
+                    break
         part.classes.add(cls)
         s.close()
     part.sample({'tight': list(shard[0])})
